@@ -49,7 +49,7 @@ def gen_param_value(r, family, depth=0):
                 kw['b'] = r.choice(['x', 'y', 'zz'])
             if r.random() < 0.4:
                 kw['verbose'] = r.random() < 0.5
-            return {'class': 'tcw.objs.PObj', 'kwargs': kw}
+            return {'class': 'tcw.objs.PObj' if r.random() < 0.7 else 'tcw.objs.PSub', 'kwargs': kw}
         kw = {}
         if r.random() < 0.7:
             kw['c'] = r.choice([1, 2, 3])
@@ -84,6 +84,9 @@ def distinct_pool(r, family, n):
     """n values of one family, pairwise distinct under type-strict comparison AND under python == (A2)."""
     pool = []
     tries = 0
+    if family == 'intdict':
+        v = gen_param_value(r, 'intdict')
+        pool = [v, {str(k_): x_ for k_, x_ in v['$intkeys']}]     # the same mapping with string keys is another value
     while len(pool) < n and tries < 50:
         tries += 1
         v = gen_param_value(r, family)
@@ -143,8 +146,12 @@ def gen_world(r, knobs=None):
         twin = None
         if pi > 0 and r.random() < k.get('p_twin', 0.2) and len(ns_names) >= 2:
             pj = r.randrange(pi)
+            first_ns = None
             for _ in range(2):
                 ns = ns_names.pop()
+                if first_ns is not None and r.random() < 0.4 and len(first_ns) == 2:
+                    ns = first_ns + '2'      # sibling namespaces one of which is a textual prefix of the other
+                first_ns = first_ns or ns
                 slots.append({'pipe': pj, 'ns': ns})
                 rch += [(A.join_ns(ns, rel) or '', q) for rel, q in reach[pj]]
             twin = (len(slots) - 2, len(slots) - 1)
@@ -173,13 +180,22 @@ def gen_world(r, knobs=None):
             if not names:
                 break
             name = names.pop()
+            if cids and r.random() < 0.12 and ':' not in classes[cids[-1]]['slug']:
+                # a task whose name extends the name of a sibling task (prefix-related names are distinct tasks)
+                ext = classes[cids[-1]]['name'] + '_x'
+                if all(c_['name'] != ext for c_ in classes):
+                    names.append(name)
+                    name = ext
             cid = len(classes)
-            grp = r.choice(GROUPS) if k['groups'] else None
+            grp = r.choice(GROUPS) if k['groups'] and not name.endswith('_x') else None
             base = 'Task'
             group = grp
             explicit_name = None
+            stray_group = None
             if grp == 'MOD':
                 base, group = 'ModuleTask', None
+                if r.random() < 0.3:
+                    stray_group = 'stray'     # release 1.4.0 derives a ModuleTask's group from its module only
             elif grp == 'DMOD':
                 base, group = 'DoubleModuleTask', None
             py = camel(name) + r.choice(['', 'Task'])
@@ -276,7 +292,7 @@ def gen_world(r, knobs=None):
             reads = [i for i in range(n_in) if r.random() < 0.75]
             r.shuffle(reads)
             classes.append({
-                'py': py, 'name': name, 'meta_name': explicit_name, 'base': base, 'group': group, 'slug': slug, 'pipe': pi,
+                'py': py, 'name': name, 'meta_name': explicit_name, 'base': base, 'group': group, 'stray_group': stray_group, 'slug': slug, 'pipe': pi,
                 'params': params, 'inputs': inputs, 'kind': kind, 'reads': reads, 'style': style,
                 'nlog': r.choice([0, 1, 2]), 'cont_steps': r.choice([1, 1, 2, 3]) if kind == 'cont' else 0,
             })
